@@ -630,9 +630,9 @@ RULES = {
 
 def apply_rules(text, rules, dropped):
     for r in rules:
-        if r.startswith('sub:'):
+        if r.startswith('sub:') or r.startswith('sub?:'):
             # sub:/regex/replacement/  -- explicit, listed verbatim in evidence
-            m = re.match(r'sub:@([^@]*)@([^@]*)@$', r)
+            m = re.match(r'sub\??:@([^@]*)@([^@]*)@$', r)
             if not m:
                 raise SliceError(f'bad sub rule {r}')
             rx, rep = m.group(1), m.group(2).replace('\\n', '\n')
@@ -643,9 +643,10 @@ def apply_rules(text, rules, dropped):
                     raise SliceError(f'rule {r} would add lines')
                 return out + '\n' * d
             new, n = re.subn(rx, _pad, text)
-            if n == 0:
+            if n == 0 and not r.startswith('sub?:'):
                 raise SliceError(f'rule {r} did not apply')
-            dropped.append(('sub', f'{n}x /{rx}/ => {rep!r}'))
+            if n:
+                dropped.append(('sub', f'{n}x /{rx}/ => {rep!r}'))
             text = new
             continue
         if r not in RULES:
@@ -677,6 +678,10 @@ def parse_target(rest):
     for k, v in KV.findall(tail):
         if k == 'sub':
             subs.append('sub:' + v)
+            continue
+        if k == 'subopt':
+            # like sub, but allowed to match nothing (the statement it abstracts may legitimately be absent)
+            subs.append('sub?:' + v)
             continue
         if len(v) >= 2 and v[0] == '/' and v[-1] == '/':
             v = v[1:-1].replace('\\/', '/')
